@@ -172,12 +172,12 @@ Proof.
   assert (E : match k with
               | Some k0 => match assoc_get (lower k0) link_types with
                            | Some c0 => Some (col_ids p c0) | None => None end
-              | None => Some (flat_map (fun kc => col_ids p (snd kc)) link_types)
+              | None => Some (flat_map (col_ids p) project_order)
               end =
               match k' with
               | Some k0 => match assoc_get (lower k0) link_types with
                            | Some c0 => Some (col_ids p c0) | None => None end
-              | None => Some (flat_map (fun kc => col_ids p (snd kc)) link_types)
+              | None => Some (flat_map (col_ids p) project_order)
               end).
   { destruct k, k'; try discriminate K; auto. injection K as K. now rewrite K. }
   rewrite E. destruct (match k' with Some _ => _ | None => _ end) as [ids|]; auto.
@@ -528,7 +528,7 @@ Definition project_ids (p : proj) (k : option str) : option (list nat) :=
                | Some c => Some (col_ids p c)
                | None => None
                end
-  | None => Some (flat_map (fun kc => col_ids p (snd kc)) link_types)
+  | None => Some (flat_map (col_ids p) project_order)
   end.
 
 Theorem lookup_first_match p r ids :
@@ -882,16 +882,35 @@ Proof.
     + apply filter_nil. intros i Hi. now rewrite (FS i Hi).
 Qed.
 
+(* the collections an unqualified search goes through are exactly the documented ones *)
 Lemma in_all_doc_collections c :
-  In c all_doc_collections <-> In c (map snd link_types).
+  In c all_doc_collections <-> In c project_order.
 Proof.
   split; intros H.
-  - assert (A : forallb (fun x => str_in x (map snd link_types)) all_doc_collections = true)
+  - assert (A : forallb (fun x => str_in x project_order) all_doc_collections = true)
       by (vm_compute; reflexivity).
     rewrite forallb_forall in A. now apply str_in_In, A.
-  - assert (A : forallb (fun x => str_in x all_doc_collections) (map snd link_types) = true)
+  - assert (A : forallb (fun x => str_in x all_doc_collections) project_order = true)
       by (vm_compute; reflexivity).
     rewrite forallb_forall in A. now apply str_in_In, A.
+Qed.
+
+(* ... each once, those of the project itself before the "ext" ones *)
+Lemma project_order_shape :
+  exists own ext, project_order = own ++ ext /\
+    forallb (fun n => negb (is_ext n)) own = true /\ forallb is_ext ext = true /\
+    NoDup project_order.
+Proof.
+  exists (filter (fun n => negb (is_ext n)) (dedup_names (map snd link_types))),
+         (filter is_ext (dedup_names (map snd link_types))).
+  split; [reflexivity|]. split; [vm_compute; reflexivity|]. split; [vm_compute; reflexivity|].
+  assert (A : (fix nd (l : list str) : bool :=
+                 match l with [] => true | x :: l' => negb (str_in x l') && nd l' end) project_order = true)
+    by (vm_compute; reflexivity).
+  revert A. generalize project_order as l. induction l as [|x l IH]; intros A; constructor.
+  - apply andb_true_iff in A as [A _]. apply negb_true_iff in A. intros H.
+    apply str_in_In in H. congruence.
+  - apply IH. now apply andb_true_iff in A as [_ A].
 Qed.
 
 Lemma project_level p n k :
@@ -910,16 +929,14 @@ Proof.
     + apply find_in_some in F as [F1 F2]. apply matching_in. split; auto. split; auto.
       apply has_url_lt; auto. eapply col_lt; eauto.
     + apply filter_nil. intros i Hi. now rewrite (find_in_none _ _ _ F i Hi).
-  - destruct (find_in p n (flat_map (fun kc => col_ids p (snd kc)) link_types)) as [i|] eqn:F.
-    + apply find_in_some in F as [F1 F2]. apply in_flat_map in F1 as ([k c] & H1 & H2).
-      cbn [snd] in H2. apply matching_in. split; [|split; auto].
-      * apply in_flat_map. exists c. split; auto. apply in_all_doc_collections.
-        apply (in_map snd) in H1. exact H1.
+  - destruct (find_in p n (flat_map (col_ids p) project_order)) as [i|] eqn:F.
+    + apply find_in_some in F as [F1 F2]. apply in_flat_map in F1 as (c & H1 & H2).
+      apply matching_in. split; [|split; auto].
+      * apply in_flat_map. exists c. split; auto. now apply in_all_doc_collections.
       * apply has_url_lt; auto. eapply col_lt; eauto.
     + apply filter_nil. intros i Hi. apply in_flat_map in Hi as (c & Hc & Hi).
-      apply in_all_doc_collections, in_map_iff in Hc as ([k c'] & E & Hkc). cbn [snd] in E. subst c'.
       rewrite (find_in_none _ _ _ F i); auto.
-      apply in_flat_map. exists (k, c). auto.
+      apply in_flat_map. exists c. split; auto. now apply in_all_doc_collections.
 Qed.
 
 Lemma finish_cand p i : has_url p i = true -> finish p (Found i) = RLink i.
